@@ -294,6 +294,32 @@ def main():
                                    "what": "; ".join(problems[:3]), "z0": z0.tolist(), "v": v.tolist(),
                                    "site": {"primitive": c.prim, "kind": "second-order", "configuration": c.tag}})
                 dist(sname + ":WRONG")
+    # ---- programs (not single primitives): values used whole and through indexing, one cotangent handed to two parents,
+    #      summands in every order - reverse-over-reverse and forward-over-reverse against forward-over-forward ----
+    import itertools as _it
+    xp = onp.array([0.3, -0.7, 1.1, 0.4])
+    vp = onp.array([1.0, -2.0, 0.5, 2.0])
+    def pterms(x):
+        u, v_ = anp.sin(x), anp.cos(2.0 * x)
+        s_ = u + v_
+        return [u[0] * v_[1], anp.sum(anp.exp(s_)), anp.sum(s_ * s_), anp.sum(anp.sin(u[0:2]) * v_[1:3]), u[3] * u[3] * v_[3], anp.sum(u[::-1] * v_)]
+    for perm in list(_it.permutations(range(6)))[:: 720 // (12 if cfg.get("tier") != "thorough" else 60)]:
+        fprog = lambda x, perm=perm: sum(pterms(x)[i] for i in perm)   # noqa: E731
+        out["n"] += 1
+        out["keys"].append("program-second-order|%s" % (perm,))
+        dist("program:second-order")
+        try:
+            hff = onp.array([float(make_jvp(lambda z: make_jvp(fprog)(z)(vp)[1])(xp)(e_)[1]) for e_ in onp.eye(4)])
+            hrr = onp.asarray(grad(lambda z: anp.sum(grad(fprog)(z) * vp))(xp))
+            hfr = onp.asarray(make_jvp(grad(fprog))(xp)(vp)[1])
+            for qn, hv in (("rev-over-rev", hrr), ("fwd-over-rev", hfr)):
+                if not onp.allclose(hv, hff, rtol=1e-10, atol=1e-12):
+                    out["bad"].append({"primitive": "program", "configuration": "summands in order %s" % (perm,), "sequence": qn,
+                                       "what": "H v by %s is %s, forward-over-forward gives %s" % (qn, hv.tolist(), hff.tolist()),
+                                       "site": {"primitive": "program", "kind": "second-order", "configuration": str(perm)}})
+                    break
+        except Exception as ex:
+            out["bad"].append({"primitive": "program", "configuration": str(perm), "what": "raised %r" % (ex,), "site": {"primitive": "program", "kind": "second-order", "configuration": str(perm)}})
     # ---- library wrappers that re-enter differentiation inside a rule (checkpoint, misc.fixed_point): their derivatives
     #      can be differentiated again ----
     from autograd import checkpoint, hessian as _hess, make_hvp as _mhvp, jacobian as _jac
